@@ -8,8 +8,9 @@ import (
 )
 
 var props = map[string]*kernel.Prop{
-	"C14": {ID: "C14", Engine: "lakesim", RunOne: runC14},
+	"C12": {ID: "C12", Engine: "lakesim", RunOne: runC12},
 	"C13": {ID: "C13", Engine: "lakesim", RunOne: runC13a},
+	"C14": {ID: "C14", Engine: "lakesim", RunOne: runC14},
 	"C15": {ID: "C15", Engine: "lakesim", RunOne: runC15seq},
 	"C17": {ID: "C17", Engine: "lakesim", RunOne: runC17, PinBase: []string{"faults"}, Expand: expandC17},
 }
